@@ -210,6 +210,10 @@ def finish(ctx, t0, level="other", explanation="", trusted=None, extra=None, out
         "files_sha256": {os.path.relpath(p, os.path.dirname(ctx.model.root)): h for p, h in sorted(ctx.model.sha.items())},
         "discopy_imported": False,
         "locals_renamed_back": list(getattr(ctx.model, "alpha_applied", []))[:50],
+        "normalisations_applied": {k: (len(v) if isinstance(v, list) else v) for k, v in (
+            ("noise_statements_removed", getattr(ctx.model, "noise_removed", 0)), ("explaining_variables_inlined", getattr(ctx.model, "temps_inlined", [])),
+            ("comparisons_turned_back", getattr(ctx.model, "comparisons_turned", 0)), ("conditional_assignments_merged", getattr(ctx.model, "conditionals_merged", 0)),
+            ("index_loops_restored", getattr(ctx.model, "loops_restored", 0)), ("fstrings_rewritten", getattr(ctx.model, "fstrings", 0)))},
         "checker_cmd": "/venv/bin/python -m sa.check %s --tier %s" % (ctx.prop, ctx.tier),
         "trusted_base": trusted or ["CPython ast module", "the transfer functions of sa/ (Python slice/list semantics, numpy axis semantics)",
                                     "mathematical facts cited in DESIGN.md §9"],
